@@ -133,6 +133,12 @@ InsAt(s, p, v) == SubSeq(s, 1, p) \o <<v>> \o SubSeq(s, p + 1, Len(s))
 InsRefs(refs, p) ==
   InsAt([i \in 1..Len(refs) |-> [k \in 1..Len(refs[i]) |-> IF refs[i][k] > p THEN refs[i][k] + 1 ELSE refs[i][k]]],
         p, <<>>)
+\* definition d removed from the list (MetadataDefs is an exported slice): d = 0 removes nothing
+DelAt(s, d) == IF d = 0 THEN s ELSE SubSeq(s, 1, d - 1) \o SubSeq(s, d + 1, Len(s))
+DelRefs(refs, d) ==
+  DelAt([i \in 1..Len(refs) |-> [k \in 1..Len(refs[i]) |-> IF d > 0 /\ refs[i][k] > d THEN refs[i][k] - 1 ELSE refs[i][k]]], d)
+\* definitions no OTHER definition refers to (removing one leaves no dangling reference)
+Deletable(refs) == {d \in 1..Len(refs) : \A i \in 1..Len(refs) : i # d => \A k \in 1..Len(refs[i]) : refs[i][k] # d}
 
 \* tokens of the printed module: per definition <<own id, id of each target>>
 Tokens(r, refs) == [i \in 1..Len(r) |-> <<r[i]>> \o [k \in 1..Len(refs[i]) |-> r[refs[i][k]]]]
